@@ -98,7 +98,7 @@ Proof. exact usize32_overflow_panics. Qed.
 (* ---- generated table (static scan of wasmi.rs, regenerated on every run) ---- *)
 Definition uses_helper (f : host_fn) : bool :=
   (hf_ptr_params f =? hf_reads f + hf_writes f) && (hf_len_params f =? hf_reads f)
-  && (hf_stray_ptr_uses f =? 0) && negb (hf_raw_access f).
+  && hf_pairs_matched f && (hf_stray_ptr_uses f =? 0) && negb (hf_raw_access f).
 (* test-only functions (feature radix_engine_tests): pointers still only through the helpers *)
 Definition test_fn_ok (f : host_fn) : bool :=
   (hf_ptr_params f =? hf_reads f + hf_writes f)
@@ -106,7 +106,8 @@ Definition test_fn_ok (f : host_fn) : bool :=
 Definition host_fn_ok (f : host_fn) : bool := if hf_cfg_test f then test_fn_ok f else uses_helper f.
 
 (* every native host function passes each pointer parameter to read_memory / write_memory exactly
-   once, uses it nowhere else, pairs every length with a read, and never touches the memory object *)
+   once, uses it nowhere else, reads every pointer with the length parameter that follows it in the
+   signature (hf_pairs_matched), and never touches the memory object *)
 Theorem C47_all_host_fns_use_checked_helpers : forallb host_fn_ok c47_host_fns = true.
 Proof. vm_compute. reflexivity. Qed.
 
